@@ -385,6 +385,8 @@ func runC04(c *Ctx) {
 					nested = "nested block"
 				case s.fnLit != nil:
 					nested = "handler closure (spliced into if/case bodies only)"
+				case s.fn != nil && p.TypesInfo.Defs[s.fn.Name] != nil && isHandlerSig(p.TypesInfo.Defs[s.fn.Name].Type()):
+					nested = "handler function (spliced into if/case bodies only)"
 				}
 				if nested == "" {
 					c.fail("C04.1", "function-level-constant-binder:"+name, L.pos(s.lit.Pos()),
